@@ -129,6 +129,13 @@ def constructed(base: str, comps: tuple = COMPONENTS, variants: bool = True) -> 
         out.append(Id(c0.replace("_", "Z"), "underscore->Z(tp+comp)", base))
         # not at the start of the id
         out.append(Id("-" + c0, "infix(tp+comp)", base))
+        # ids that are (or contain, or case-fold to) a complete table name of `base`
+        from pynenc.broker.sqlite_broker import Tables as BrokerTables
+
+        tq = BrokerTables(base).QUEUE
+        out.append(Id(tq, "table-name", base))
+        out.append(Id("-" + tq, "infix(table-name)", base))
+        out.append(Id(tq.swapcase(), "swapcase(table-name)", base))
     return out
 
 
